@@ -239,6 +239,10 @@ class FunctionAnalysis:
                 if iv[0] > -(1 << (bits - 1)) and iv[1] < (1 << (bits - 1)):
                     lo = 0 if iv[0] <= 0 <= iv[1] else min(abs(iv[0]), abs(iv[1]))
                     return LF(0, {self._atom(o, "abs", lo, max(abs(iv[0]), abs(iv[1]))): 1})
+        if op == "call" and i.callee in self.P.functions and self.P.functions[i.callee].blocks and i["ty"].startswith("i"):
+            rr = self.E.ret_range(i.callee)
+            if rr is not None:
+                return LF(0, {self._atom(o, "ret", rr[0], rr[1]): 1})
         return LF(0, {self._atom(o, "val", *self._tyrange(i["ty"])): 1})
 
     def _fit(self, inst, r, st):
@@ -429,6 +433,14 @@ class FunctionAnalysis:
                 if not (v[0] >= rng[0] and v[1] <= rng[1]):
                     v = rng
             atom = ("cell",) + c
+            # `x += e` with x known equal to another linear form (x = y; x += e): rewrite the stored value without x, so that the
+            # equality x' = y + e survives the update
+            if l is not None and atom in l.t and len(l.t) > 1 and l.t[atom] == 1:
+                eq = self._equal_form(st, atom)
+                if eq is not None:
+                    l2 = LF(l.k, {a_: c_ for a_, c_ in l.t.items() if a_ != atom}).add(eq)
+                    if atom not in l2.t:
+                        l = l2
             # facts that mention the cell: re-derive x' = x + k  shifts, otherwise kill
             shift = None
             if l is not None and l.t == {atom: 1}:
@@ -472,6 +484,20 @@ class FunctionAnalysis:
                 self.kill(st, lambda a: a[0] == "expr" and rules.key_mentions(a[1], lambda k: k[0] == tgt[0] and k[1] == tgt[1]))
             else:
                 self.kill(st, lambda a: a[0] == "expr")
+
+    def _equal_form(self, st, atom):
+        """a linear form (not mentioning atom) that the facts prove equal to atom, or None"""
+        for fk, ub in st.facts.items():
+            d = dict(fk)
+            if d.get(atom) != 1 or len(d) < 2 or len(d) > 4:
+                continue
+            neg = tuple(sorted(((a_, -c_) for a_, c_ in d.items()), key=lambda kv: str(kv[0])))
+            ub2 = st.facts.get(neg)
+            if ub2 is None or ub2 != -ub:
+                continue
+            # atom + rest <= ub and -(atom + rest) <= -ub  =>  atom = ub - rest
+            return LF(ub, {a_: -c_ for a_, c_ in d.items() if a_ != atom})
+        return None
 
     def _base_object(self, o):
         """('alloca', id) / ('g', name) of the object a pointer operand points into, if it is a named object"""
@@ -974,6 +1000,35 @@ class Engine:
         self._summ[callee] = res
         return res
 
+    def ret_range(self, callee):
+        """interval of the value a repo function returns (over all its return paths, parameters unconstrained), or None"""
+        key = ("ret", callee)
+        if key in self._summ:
+            return self._summ[key]
+        f = self.P.functions.get(callee)
+        if f is None or not f.blocks or callee in self._inprog or sum(len(b.insts) for b in f.blocks) > 600:
+            return None
+        self._summ[key] = None
+        self._inprog.add(callee)
+        try:
+            fa = self.analysis(f)
+            iv = None
+            for r in f.all_insts():
+                if r.op == "ret" and "val" in r.d:
+                    sts = fa.pre.get(r.id, [])
+                    if not sts:
+                        continue
+                    for st in sts:
+                        v = fa.iv(r["val"], st)
+                        iv = v if iv is None else hull(iv, v)
+        except Exception:
+            iv = None
+        self._inprog.discard(callee)
+        if iv is not None and (iv[0] == -INF or iv[1] == INF):
+            iv = None
+        self._summ[key] = iv
+        return iv
+
     # ------------------------------------------------------------ parameter intervals from call sites
     def param_intervals(self, fn, depth=0):
         """interval of each integer parameter = hull over all call sites (callers analysed with their own parameter intervals)"""
@@ -1068,7 +1123,8 @@ def check_gep(fa, gep, base):
 def check_send_bounds(chk, w, roles):
     """C01-BND: every variable-index access to the batch / staging buffer and the append memcpy are in bounds"""
     P = w.P
-    E = Engine(w, {g for g in w.P.globals if g.split(".u")[0] in ("buffer_index", "pkt_max_cap")})
+    scal = set(roles["fill_index"]) | set(roles.get("capacity", ()))
+    E = Engine(w, scal)
     chk.rule("C01-BND", "every store into the batch and staging buffers and the append copy stay inside the arrays")
     bufs = set(roles["staging"]) | set(roles["batch"])
     n = 0
@@ -1116,5 +1172,5 @@ def check_send_bounds(chk, w, roles):
             chk.violation("C01-BND", f.name, "append-copy", mc.loc(), "the append copy may overrun the batch buffer: %s" % bad)
         else:
             chk.ok("C01-BND", 1, {"append": mc.loc(), "states": len(fa.pre.get(mc.id, []))})
-    chk.extra["global_invariants"] = {k: list(v) for k, v in E.global_iv.items() if k.split(".u")[0] in ("buffer_index", "pkt_max_cap")}
+    chk.extra["global_invariants"] = {k: list(v) for k, v in E.global_iv.items() if k in scal}
     chk.floor("send_buffer_accesses", n, 6)
